@@ -12,7 +12,9 @@ PROP = "C16"
 
 def base_ops(G, variant):
     a = container.op_alphabet(G)
-    seqs = ["sBpxBs", "BBsx", "psfsFB", "x", "sssss", "sxpsx", "spxpxs"]      # (the last two: a push right after an explicit finish)
+    a["A"] = {"op": "serialize_all", "pres_list": [a["s"]["pres"], a["B"]["pres"], a["s"]["pres"]]}       # Writer::serialize_all
+    seqs = ["sBpxBs", "BBsx", "psfsFB", "x", "sssss", "sxpsx", "spxpxs",      # (a push right after an explicit finish)
+            "sBAxA", "BxAs"]                                                    # (serialize_all right after a flush)
     ops = [json.loads(json.dumps(a[c])) for c in seqs[variant % len(seqs)]]
     return ops + [{"op": "into_inner"}]
 
@@ -64,7 +66,7 @@ def run(tier, seed):
     G = container.item_schema()
     rng = random.Random(seed)
     cmds, kinds = [], []
-    combos = [("null", 8, 0), ("null", 0, 1), ("deflate", 30, 2), ("null", 1000, 3), ("snappy", 5, 4), ("null", 1000, 5), ("deflate", 1000, 6)]
+    combos = [("null", 8, 0), ("null", 0, 1), ("deflate", 30, 2), ("null", 1000, 3), ("snappy", 5, 4), ("null", 1000, 5), ("deflate", 1000, 6), ("null", 8, 7), ("deflate", 0, 8)]
     if tier != "quick":
         combos += [("zstandard", 8, 0), ("null", 3, 2), ("bzip2", 30, 1), ("xz", 8, 4)]
     ref_cmds = [container.writer_cmd(G, c, a, base_ops(G, v), cid=i) for i, (c, a, v) in enumerate(combos)]
